@@ -1513,3 +1513,63 @@ def ob_field_copies(run, oid, fns, why, floor=None):
         if n == 0:
             o.missing("struct built in " + fn)
     return o
+
+
+# ------------------------------------------------------------------------------------ truncating iterator adapters
+_TRUNC = ("take", "take_while", "skip", "skip_while", "map_while", "step_by", "nth", "nth_back", "split_off", "truncate", "drain")
+
+
+def truncation_table(prog):
+    """{root fn: {adapter: count}} - uses of adapters / operations that cut a sequence short (take, take_while, skip, map_while, step_by, nth,
+    truncate, split_off, drain) in non-test crate code"""
+    out = {}
+    for d, b in prog.bodies.items():
+        if b.generated or not d.startswith("alpenglow::") or "::tests::" in d:
+            continue
+        root = K.fshort(d.split("::{closure")[0])
+        for c in b.calls():
+            last = mir.strip_generics(c.name).rsplit("::", 1)[-1]
+            if last in _TRUNC and ("Iterator" in c.name or "iter::" in c.name or "Vec" in c.name or "VecDeque" in c.name or "collections::" in c.name or "slice" in c.name or "SmallVec" in c.name):
+                out.setdefault(root, {})
+                out[root][last] = out[root].get(last, 0) + 1
+    return out
+
+
+def ob_no_new_truncation(run, oid, prefixes, why):
+    """sequences are processed whole: a function uses a truncating adapter (take / take_while / skip / map_while / step_by / nth / truncate / split_off /
+    drain) at most as often as on the reviewed tree (rules/truncation_table.json)"""
+    prog = run.program("lib")
+    tab = json.load(open(os.path.join(os.path.dirname(os.path.abspath(__file__)), "truncation_table.json")))
+    o = run.ob(oid, "no new truncation of a sequence (take / take_while / skip / map_while / step_by / nth / truncate / split_off / drain) in the property's modules", why, floor=1)
+    cur = truncation_table(prog)
+    n = 0
+    for root, ads in sorted(cur.items()):
+        if not any(root.startswith(p) for p in prefixes):
+            continue
+        for ad, k in sorted(ads.items()):
+            n += 1
+            w = tab.get(root, {}).get(ad, 0)
+            o.check(k <= w, "%s|%s" % (root, ad), "%s uses .%s() %d time(s) (reviewed: %d)" % (root, ad, k, w), "", {"now": k, "reviewed": w},
+                    fail_what="%s cuts a sequence short with a new .%s() (%d use(s), reviewed %d): elements behind the cut are not processed" % (root, ad, k, w))
+    o.ok("scanned", "%d (function, adapter) pairs in %s" % (n, ", ".join(prefixes)), "", nontrivial=True)
+    return o
+
+
+# ------------------------------------------------------------------------------------ process-wide state
+REVIEWED_STATICS = ()   # the library of the reviewed tree has no `static` item at all (the simulation data tables live behind the `simulations` feature)
+
+
+def ob_no_globals(run, oid, prefixes, why):
+    """components keep their state in themselves: no `static` (incl. LazyLock / OnceLock / thread_local! caches and registries) in the property's modules"""
+    prog = run.program("lib")
+    o = run.ob(oid, "no process-wide state: the property's modules define no `static` item (reviewed: none in the library)", why, floor=1)
+    n = 0
+    for d, r in sorted(prog.statics.items()):
+        sd = d.replace("alpenglow::", "", 1)
+        if not d.startswith("alpenglow::") or not any(sd.startswith(p) for p in prefixes):
+            continue
+        n += 1
+        o.check(sd in REVIEWED_STATICS, "static|%s" % sd, "static %s is reviewed" % sd, r.get("span", ""), {"ty": r.get("ty", "")[:100]},
+                fail_what="new process-wide state `static %s: %s`: what a component computes now depends on what else was constructed or run in the same process" % (sd, r.get("ty", "")[:80]))
+    o.ok("scanned", "%d static item(s) under %s" % (n, ", ".join(prefixes)), "", nontrivial=True)
+    return o
